@@ -28,6 +28,7 @@ import (
 type crashComp struct{}
 
 func init() { register("crash", crashComp{}) }
+
 // OpTimeout: single operations of this component are whole runs / scans
 func (crashComp) OpTimeout() time.Duration { return 15 * time.Minute }
 
